@@ -102,6 +102,55 @@ Theorem C11_templates_from_kept : forall c root pp pv p x,
 Proof. exact templates_from_kept. Qed.
 Print Assumptions C11_templates_from_kept.
 
+(* A disabled dependency contributes no CRDs.  [crd_objects] transcribes Chart.CRDObjects()
+   (own crds/ files, then those of every chart in the dependency list).  Every CRD object of a
+   tree belongs to the chart itself or to a chart in its dependency list ... *)
+Theorem C11_crds_from_kept : forall c root pp o,
+  In o (crd_objects c root pp) ->
+  let full := chart_full_path root pp (cname c) in
+  (exists f, In f (ccrds c) /\ o = (f, full ++ "/" ++ f))
+  \/ (exists d, In d (cdeps c) /\ In o (crd_objects d false full)).
+Proof. exact crds_from_kept. Qed.
+Print Assumptions C11_crds_from_kept.
+
+(* ... so after processDependencyEnabled every CRD object comes from the chart's own crds/ or
+   from a kept subchart that does not carry the name of any disabled requirement ... *)
+Theorem C11_disabled_contributes_no_crds : forall compat c v path c',
+  pde compat c v path = Ok c' ->
+  let reqs := resolved_reqs (mdeps_list c) in
+  let ks := resolved_kids compat (kids_of compat c) (mdeps_list c) in
+  exists cvals,
+    CoalesceValues (set_deps c (map fst ks)) v = Ok cvals
+    /\ forall r, In r reqs -> enabled_spec cvals path r = false ->
+       forall root pp o, In o (crd_objects c' root pp) ->
+         let full := chart_full_path root pp (cname c') in
+         (exists f, In f (ccrds c) /\ o = (f, full ++ "/" ++ f))
+         \/ (exists d, In d (cdeps c') /\ cname d <> dname r /\ In o (crd_objects d false full)).
+Proof. exact disabled_no_crds. Qed.
+Print Assumptions C11_disabled_contributes_no_crds.
+
+(* ... and the whole ProcessDependencies (import-values included) yields the same CRD objects
+   as its enable/disable pass: what install sends to the cluster from crds/ AFTER
+   ProcessDependencies is exactly this list. *)
+Theorem C11_process_dependencies_crds : forall compat c v c'',
+  process_dependencies compat c v = Ok c'' ->
+  exists c', pde compat c v "" = Ok c' /\ cname c'' = cname c'
+             /\ forall root pp, crd_objects c'' root pp = crd_objects c' root pp.
+Proof. exact process_dependencies_crds. Qed.
+Print Assumptions C11_process_dependencies_crds.
+
+Example C11_crds_example :
+  let sub := Chart "sub" "1.0.0" [] None [] None [] ["crds/s.yaml"] in
+  let top := Chart "top" "1.0.0" [] None [sub]
+               (Some [mkDep "sub" "*" "a1.enabled" [] "a1" false []; mkDep "sub" "*" "a2.enabled" [] "a2" false []])
+               [] ["crds/t.yaml"] in
+  match process_dependencies (fun _ _ => true) top [("a1", VMap [("enabled", VBool false)])] with
+  | Ok c' => crd_objects c' true "" = [("crds/t.yaml", "top/crds/t.yaml"); ("crds/s.yaml", "top/charts/a2/crds/s.yaml")]
+  | Err _ => False
+  end.
+Proof. exact crds_example. Qed.
+Print Assumptions C11_crds_example.
+
 (* C11_scope, one level of the tree (it applies at every level): what the parent's coalesced
    values hold under subchart d's name - which is d's .Values - depends only on the section
    under d's name and on the "global" table of the values handed down; it is unchanged by any
@@ -170,9 +219,9 @@ Print Assumptions C11_global_kept_by_defaults.
 (* Non-vacuity of the scope / global-flow hypotheses: two subcharts, a global set by the user,
    a different one in suba's defaults; suba sees the user's, subb is untouched by suba's section. *)
 Example C11_scope_example :
-  let suba := Chart "suba" "1.0.0" [("global", VMap [("g", VNum 1)]); ("k", VNum 1)] None [] None [] false in
-  let subb := Chart "subb" "1.0.0" [("k", VNum 2)] None [] None [] false in
-  let top := Chart "top" "1.0.0" [] None [suba; subb] None [] false in
+  let suba := Chart "suba" "1.0.0" [("global", VMap [("g", VNum 1)]); ("k", VNum 1)] None [] None [] [] in
+  let subb := Chart "subb" "1.0.0" [("k", VNum 2)] None [] None [] [] in
+  let top := Chart "top" "1.0.0" [] None [suba; subb] None [] [] in
   let v := [("global", VMap [("g", VNum 7)]); ("suba", VMap [("zz", VNum 1)])] in
   let v' := [("global", VMap [("g", VNum 7)]); ("suba", VMap [("zz", VNum 2); ("global", VMap [("h", VNum 3)])])] in
   NoDup (map cname (cdeps top)) /\ ~ In global_key (map cname (cdeps top)) /\
@@ -190,11 +239,11 @@ Print Assumptions C11_scope_example.
 (* Non-vacuity: a chart with two aliases of one subchart (unique names), one disabled by its
    condition in the user's values although its tag says true; the other kept by a tag. *)
 Example C11_enabled_example :
-  let sub := Chart "sub" "1.0.0" [("enabled", VBool true)] None [] None ["templates/p.yaml"] false in
+  let sub := Chart "sub" "1.0.0" [("enabled", VBool true)] None [] None ["templates/p.yaml"] [] in
   let top := Chart "top" "1.0.0" [("tags", VMap [("t1", VBool true)])] None [sub]
                (Some [mkDep "sub" "*" "a1.enabled" ["t1"] "a1" false [];
                       mkDep "sub" "*" "a2.missing,a2.str" ["t0"; "t1"] "a2" false []])
-               ["templates/p.yaml"] false in
+               ["templates/p.yaml"] [] in
   let v := [("a1", VMap [("enabled", VBool false)]); ("a2", VMap [("str", VStr "yes")]); ("tags", VMap [("t0", VBool false)])] in
   NoDup (map dname (resolved_reqs [mkDep "sub" "*" "a1.enabled" ["t1"] "a1" false [];
                                    mkDep "sub" "*" "a2.missing,a2.str" ["t0"; "t1"] "a2" false []]))
